@@ -25,6 +25,7 @@ EXPLANATION = (
     "NOT decided: the metamorphic equalities over predicates and data."
     ' R3 (pandas null outputs): in postprocess_field every path to the `.all()` verdict passes `fillna(False)` (a `hasnans`-guarded fill counts), so <NA> outputs of nullable dtypes fail under ignore_na=False as NaN does. R3 (null-aware paths): every value returned by a field-level preprocess function (the targets `preprocess` dispatches to for a Series or with the `key` of a column) is produced with ignore_na consulted - by a guard, a reaching definition under a guard, or a private helper that reads it - so the groupby branch drops the nulls of each group too; guards of conditional expressions are part of every path condition.'
     ' R6 (keys): every len(key) / key[0] on a group key in _format_groupby_input is guarded by isinstance(key, tuple) (conditional-expression, `and` and statement guards).'
+    ' R3 (pure null test): apart from ignore_na the condition of a pre-check dropna is a plain null-presence test (.hasnans, isna().any(), or a helper whose every return is one) - a dtype-kind short cut leaves <NA> of nullable dtypes in the data. R6 follows the key into helpers and accepts the groups restriction as a filtered dict comprehension.'
 )
 LEVEL_RULE = "one obligation per constructor / backend function / option use site"
 FLOORS = {"R1": 22, "R2": 4, "R3": 5, "R4": 2, "R5": 4, "R6": 3, "R7": 1}
@@ -579,6 +580,25 @@ def r6_groups(ctx):
         good = d.get(f"{key} in {gparam}") is True and d.get(f"{gparam} is None") is False
         ok = ok and good
         det.append(show_condition(pc))
+    if not stores:
+        # comprehension form: `return {key: group for key, group in ... if key in groups}` (reached when groups is given)
+        for r in function_stmts(f):
+            if not isinstance(r, ast.Return) or r.value is None:
+                continue
+            dc = r.value
+            if isinstance(dc, ast.Name):
+                defs_ = [a.value for a in function_stmts(f) if isinstance(a, ast.Assign) and any(isinstance(t, ast.Name) and t.id == dc.id for t in a.targets)]
+                dc = defs_[-1] if defs_ else dc
+            if not isinstance(dc, ast.DictComp):
+                continue
+            pc = path_condition(cfg, cfg.node_of(r).id, keep=keep)
+            d = dict(zip(pc[0], next(iter(pc[1])))) if len(pc[1]) == 1 else {}
+            if d.get(f"{gparam} is None") is not False:
+                continue   # the groups-is-None branch returns every group
+            key = txt(dc.key)
+            filtered = any(txt(cond).replace(" ", "") == f"{key}in{gparam}".replace(" ", "") for g_ in dc.generators for cond in g_.ifs)
+            ok = filtered
+            det.append(f"comprehension filtered by `{key} in {gparam}`" if filtered else f"comprehension over every group (no `{key} in {gparam}` filter)")
     ctx.ob("R6", f, "only requested groups are handed to the check function", ok, "; ".join(det) or "no store into output")
     # the grouping itself keeps every group of the grouping columns (unobserved categories, null keys as pandas defines)
     gb = cls.method("groupby")
@@ -632,45 +652,63 @@ def r6_group_keys_unwrapped_only_when_tuples(ctx):
             keys.add(tgt.elts[0].id)
     if not keys:
         raise AnalysisError("_format_groupby_input: iteration over the groupby object not found")
-    cfg = cfg_of(f.node)
+    # the unwrapping may live in a helper that is handed the key (`_unwrap_group_key(key)`): its parameter is a key too
+    work, seen_fn = [(f, keys)], {f.qual}
+    for c in ast.walk(f.node):
+        if isinstance(c, ast.Call) and isinstance(c.func, (ast.Name, ast.Attribute)):
+            h = None
+            if isinstance(c.func, ast.Name):
+                h = f.nested.get(c.func.id) or f.module.functions.get(c.func.id)
+            elif isinstance(c.func.value, ast.Name) and c.func.value.id in ("self", "cls") and f.cls is not None:
+                h = f.cls.lookup(c.func.attr)
+            if h is None or h.module is not f.module or h.qual in seen_fn:
+                continue
+            hp = [p for p in h.positional if p not in ("self", "cls")]
+            passed = {hp[i] for i, a in enumerate(c.args) if i < len(hp) and isinstance(a, ast.Name) and a.id in keys}
+            if passed:
+                seen_fn.add(h.qual)
+                work.append((h, passed))
     n = 0
-    for x in ast.walk(f.node):
-        use = None
-        if isinstance(x, ast.Call) and isinstance(x.func, ast.Name) and x.func.id == "len" and x.args and isinstance(x.args[0], ast.Name) and x.args[0].id in keys:
-            use = x.args[0].id
-        elif isinstance(x, ast.Subscript) and isinstance(x.value, ast.Name) and x.value.id in keys and isinstance(x.ctx, ast.Load):
-            use = x.value.id
-        if use is None:
-            continue
-        n += 1
-        guards = []
-        child, p_ = x, getattr(x, "_parent", None)
-        while p_ is not None and not isinstance(p_, (ast.FunctionDef, ast.AsyncFunctionDef)):
-            if isinstance(p_, ast.IfExp) and child is not p_.test:
-                guards.append((p_.test, child is p_.body))
-            if isinstance(p_, ast.BoolOp) and isinstance(p_.op, ast.And):
-                i = p_.values.index(child) if child in p_.values else 0
-                guards += [(v, True) for v in p_.values[:i]]
-            if isinstance(p_, ast.stmt):
-                node = cfg.node_of(p_)
-                if node is not None:
-                    guards += list(cfg.guards(node.id))
-                    if isinstance(p_, (ast.If, ast.While)) and child is p_.test:
-                        pass
-            child, p_ = p_, getattr(p_, "_parent", None)
-        def is_tuple_test(t, pol):
-            conj = t.values if isinstance(t, ast.BoolOp) and isinstance(t.op, ast.And) else [t]
-            return pol and any(isinstance(v, ast.Call) and isinstance(v.func, ast.Name) and v.func.id == "isinstance" and len(v.args) == 2
-                               and txt(v.args[0]) == use and "tuple" in txt(v.args[1]) for v in conj)
-        ok = any(is_tuple_test(t, pol) for t, pol in guards)
-        comp = x
-        while comp is not None and not isinstance(comp, (ast.DictComp, ast.SetComp, ast.ListComp, ast.GeneratorExp, ast.For, ast.FunctionDef)):
-            comp = getattr(comp, "_parent", None)
-        where = {"DictComp": "the returned mapping", "SetComp": "the set of valid keys", "For": "the groups loop"}.get(type(comp).__name__, type(comp).__name__)
-        ctx.ob("R6", f, f"`{txt(x)}` on a group key ({where}) only when the key is a tuple", ok,
-               "guarded by isinstance(key, tuple)" if ok else
-               f"`{txt(x)}` is applied to every group key: a callable groupby that groups by a scalar (`lambda d: d.groupby('g')` with integer or Timestamp keys) raises "
-               "TypeError: object of type 'int' has no len(), reported as a CHECK_ERROR, and the check function is never called", f.loc(x))
+    for f, keys in work:
+      cfg = cfg_of(f.node)
+      ctx.touched(f)
+      for x in ast.walk(f.node):
+          use = None
+          if isinstance(x, ast.Call) and isinstance(x.func, ast.Name) and x.func.id == "len" and x.args and isinstance(x.args[0], ast.Name) and x.args[0].id in keys:
+              use = x.args[0].id
+          elif isinstance(x, ast.Subscript) and isinstance(x.value, ast.Name) and x.value.id in keys and isinstance(x.ctx, ast.Load):
+              use = x.value.id
+          if use is None:
+              continue
+          n += 1
+          guards = []
+          child, p_ = x, getattr(x, "_parent", None)
+          while p_ is not None and not isinstance(p_, (ast.FunctionDef, ast.AsyncFunctionDef)):
+              if isinstance(p_, ast.IfExp) and child is not p_.test:
+                  guards.append((p_.test, child is p_.body))
+              if isinstance(p_, ast.BoolOp) and isinstance(p_.op, ast.And):
+                  i = p_.values.index(child) if child in p_.values else 0
+                  guards += [(v, True) for v in p_.values[:i]]
+              if isinstance(p_, ast.stmt):
+                  node = cfg.node_of(p_)
+                  if node is not None:
+                      guards += list(cfg.guards(node.id))
+                      if isinstance(p_, (ast.If, ast.While)) and child is p_.test:
+                          pass
+              child, p_ = p_, getattr(p_, "_parent", None)
+          def is_tuple_test(t, pol):
+              conj = t.values if isinstance(t, ast.BoolOp) and isinstance(t.op, ast.And) else [t]
+              return pol and any(isinstance(v, ast.Call) and isinstance(v.func, ast.Name) and v.func.id == "isinstance" and len(v.args) == 2
+                                 and txt(v.args[0]) == use and "tuple" in txt(v.args[1]) for v in conj)
+          ok = any(is_tuple_test(t, pol) for t, pol in guards)
+          comp = x
+          while comp is not None and not isinstance(comp, (ast.DictComp, ast.SetComp, ast.ListComp, ast.GeneratorExp, ast.For, ast.FunctionDef)):
+              comp = getattr(comp, "_parent", None)
+          where = {"DictComp": "the returned mapping", "SetComp": "the set of valid keys", "For": "the groups loop"}.get(type(comp).__name__, type(comp).__name__)
+          ctx.ob("R6", f, f"`{txt(x)}` on a group key ({where}) only when the key is a tuple", ok,
+                 "guarded by isinstance(key, tuple)" if ok else
+                 f"`{txt(x)}` is applied to every group key: a callable groupby that groups by a scalar (`lambda d: d.groupby('g')` with integer or Timestamp keys) raises "
+                 "TypeError: object of type 'int' has no len(), reported as a CHECK_ERROR, and the check function is never called", f.loc(x))
     if n < 2:
         raise AnalysisError(f"_format_groupby_input: uses of the group key as a tuple found: {n}")
 
